@@ -35,6 +35,12 @@ STRICT = [
     ("codec", "{F} (ㄴ ㄴ ㅂ ㅂ ㅂㅎㄷ ㅎㄷ) ㅎㄴ"), ("try-body-nested", "ㄱ ((ㄴ {F} ㅁㄹㅎㄷ) (ㄱㅇㄱ ㄷㅈㅎㄴ ㅎ) ㅅㄷㅎㄷ) ㅎㄴ"),
     ("deep", "ㄴ (ㄷ (ㄹ {F} ㄷㅎㄷ) ㄱㅎㄷ) ㄷㅎㄷ"), ("in-closure", "ㄴ (ㄱㅇㄱ {F} ㄷㅎㄷ ㅎ) ㅎㄴ"), ("returned-closure", "ㄴ (({F} ㅎ) ㅎㄱ) ㅎㄴ"),
     ("file-mode", "(ㅁㅈㅎㄱ) {F} ㄱㄴㅎㄷ"), ("import", "{F} ㅂㅎㄴ"),
+    # elements of a later operand of ㄴ: every operand is keyed completely before it is compared, whatever the sizes
+    # (seeded change S10h returned False early for collections of different sizes)
+    ("eq-2-elem-longer", "(ㄴ ㅁㄹㅎㄴ) (ㄴ {F} ㅁㄹㅎㄷ) ㄴㅎㄷ"), ("eq-2-elem-shorter", "(ㄴ ㄷ ㄹ ㅁㄹㅎㄹ) (ㄴ {F} ㅁㄹㅎㄷ) ㄴㅎㄷ"),
+    ("eq-2-elem-same-size", "(ㄴ ㄷ ㅁㄹㅎㄷ) (ㄴ {F} ㅁㄹㅎㄷ) ㄴㅎㄷ"), ("eq-3-elem", "(ㄴ ㅁㄹㅎㄴ) (ㄴ ㅁㄹㅎㄴ) (ㄴ ㄷ {F} ㅁㄹㅎㄹ) ㄴㅎㄹ"),
+    ("eq-2-nested-elem", "((ㄴ ㅁㄹㅎㄴ) ㅁㄹㅎㄴ) ((ㄴ {F} ㅁㄹㅎㄷ) ㅁㄹㅎㄴ) ㄴㅎㄷ"), ("eq-2-exc-list-elem", "((ㄴ ㅁㄹㅎㄴ) ㄷㅂㅎㄴ) ((ㄴ {F} ㅁㄹㅎㄷ) ㄷ ㄷㅂㅎㄷ) ㄴㅎㄷ"),
+    ("eq-2-dict-value", "(ㄴ ㄷ ㅅㅈㅎㄷ) (ㄴ ㄷ ㄹ {F} ㅅㅈㅎㅁ) ㄴㅎㄷ"),
 ]
 
 
